@@ -24,9 +24,11 @@ Definition C08_model (k : C08_case) : C08_obs :=
   let st := stream (score_of (k_rows k)) aggregate (k_cfg k) (decode_lines (k_segs k)) in
   (map (map fst) (emitted st), invalid st, ckpts st, final_sort (aggregate (acc st))).
 
-(* |a - b| <= 1e-12 * max(|a|, |b|) over the integers *)
+(* |a - b| <= 2^-52 * max(|a|, |b|) over the integers: at most one unit in the last place of a binary64.
+   Odd group sizes are exact (the median is one of the scores); for even sizes pandas returns fl((x + y) / 2): the sum
+   is rounded once (<= 2^-53 relative), halving is exact. *)
 Definition close2 (a b : Z) : bool :=
-  (Z.abs (a - b) * 1000000000000 <=? Z.max (Z.abs a) (Z.abs b))%Z.
+  (Z.abs (a - b) * 4503599627370496 <=? Z.max (Z.abs a) (Z.abs b))%Z.
 Definition row_close (r1 r2 : row) : bool := key_eqb (fst r1) (fst r2) && close2 (snd r1) (snd r2).
 (* same ordered pairs, each once per table row, scores within the tolerance (row order of the tables is free) *)
 Definition table_close (t1 t2 : table) : bool :=
@@ -38,7 +40,9 @@ Record C08_verdict := mkverdict {
   v_nckpt : bool;            (* one checkpoint per batch *)
   v_ckpts : list bool;       (* checkpoint k = median aggregation of the first k batches *)
   v_sorted : bool;           (* final table ascending *)
-  v_final : bool             (* final table = median aggregation of all batches *)
+  v_final : bool;            (* final table = median aggregation of all rows of all batches *)
+  v_uniform : list bool;     (* within one batch all rows of an ordered pair carry one score *)
+  v_per_batch : bool         (* final table = median of the PER-BATCH scores (one score per batch and ordered pair) *)
 }.
 
 (* the property's clauses, evaluated on what the implementation produced, against the REFERENCE semantics
@@ -55,17 +59,20 @@ Definition C08_check (k : C08_case) (o : C08_obs) : C08_verdict :=
     (Nat.eqb (length ockpts) (length ref))
     (map (fun j => table_close (aggregate (concat (map score (firstn (S j) ref)))) (nth j ockpts [])) (seq 0 (length ref)))
     (sortedb (map snd ofinal))
-    (table_close (aggregate (concat (map score ref))) ofinal).
+    (table_close (aggregate (concat (map score ref))) ofinal)
+    (map (fun b => batch_uniformb (score b)) ref)
+    (table_close (aggregate (concat (map (fun b => batch_once (score b)) ref))) ofinal).
 
 Definition verdict_ok (v : C08_verdict) : bool :=
-  v_batches v && v_invalid v && v_nckpt v && forallb (fun b => b) (v_ckpts v) && v_sorted v && v_final v.
+  v_batches v && v_invalid v && v_nckpt v && forallb (fun b => b) (v_ckpts v) && v_sorted v && v_final v
+  && forallb (fun b => b) (v_uniform v) && v_per_batch v.
 
 (* flat encodings so that the printed term is digits, brackets and booleans only *)
 Definition enc_table (t : table) : list (N * N * Z) := map (fun r => (fst (fst r), snd (fst r), snd r)) t.
 Definition enc_obs (o : C08_obs) :=
   let '(b, i, c, f) := o in (b, i, map enc_table c, enc_table f).
 Definition enc_verdict (v : C08_verdict) :=
-  (v_batches v, v_invalid v, v_nckpt v, v_ckpts v, v_sorted v, v_final v).
+  (v_batches v, v_invalid v, v_nckpt v, v_ckpts v, v_sorted v, v_final v, v_uniform v, v_per_batch v).
 
 (* what the harness prints per case: does the loop model consume the same batches as the implementation did,
    the model's invalid count, checkpoints and final table (small), and the verdict of the checker *)
